@@ -173,6 +173,12 @@ def run_property(pid, tier, seed, repo='/repo', only_deductive=False, timeout=No
     import numpy as _np
     for cf in P.get('case_functions', []):
         cmod = importlib.import_module(cf['module'])
+        ctx.flat_mode = bool(getattr(cmod, 'FLAT_MODE', False))
+        for sp in getattr(cmod, 'SPECS', []):
+            if 'spec!' + sp[0] not in ctx.registry.specs:
+                ctx.add_spec(*sp)
+        for lem in getattr(cmod, 'LEMMAS', []):
+            fun_info.append(verify.verify_lemma(ctx, lem))
         for case in cmod.cases(tier, _np.random.default_rng(seed)):
             if not isinstance(case, dict):
                 (label, struct, *cargs) = case
@@ -192,6 +198,7 @@ def run_property(pid, tier, seed, repo='/repo', only_deductive=False, timeout=No
                 engine_errors.append('precondition of %s not shown satisfiable (%s)' % (rep['function'], rep['pre_satisfiable']))
             if rep['canary_refuted'] is not True and not (rep.get('returns') == 0 and rep.get('raises', 0) > 0):
                 engine_errors.append('canary at the exit of %s not refuted' % rep['function'])
+    ctx.flat_mode = False
     for f in P['functions']:
         relpath, qual = f['key'].split('::')
         try:
